@@ -458,7 +458,11 @@ func gen(r *rand.Rand, tier string) []string {
 	emit := func(pls []planT) {
 		for i, pl := range pls {
 			for k := 0; k < repsOf(pl.weight, tier); k++ {
-				out = append(out, lineX(pl.cancel, ncExtra(pl.extra, i+k), k, pl.pools...))
+				pools := pl.pools
+				if pl.weight == 0 && pl.extra == "" {
+					pools = varyTiming(pools, k)
+				}
+				out = append(out, lineX(pl.cancel, ncExtra(pl.extra, i+k), k, pools...))
 			}
 		}
 	}
@@ -495,6 +499,26 @@ func gen(r *rand.Rand, tier string) []string {
 	if scanErr == "" {
 		emit(instrRound2(pointSet(pts), r, tier))
 		emit(instrRound3(pointSet(pts), r, tier))
+	}
+	return out
+}
+
+// varyTiming: the plans that are repeated many times to sample select orders are not all run with every token of the
+// rps schedule due at once and all instances started at once: every fourth repetition hands the tokens out 1 ms
+// apart (the Waiter sleeps on its timer against the run context) and another fourth starts the instances 1 ms apart
+func varyTiming(pools []pspec, k int) []pspec {
+	if k%4 != 2 && k%4 != 3 {
+		return pools
+	}
+	out := append([]pspec(nil), pools...)
+	for i := range out {
+		p := &out[i]
+		if k%4 == 2 && p.rs == "" && p.shots <= 6 {
+			p.rs = "step1"
+		}
+		if k%4 == 3 && p.su == "" && p.inst >= 1 && p.inst <= 3 {
+			p.su = "step1"
+		}
 	}
 	return out
 }
@@ -540,6 +564,9 @@ func class(input, obs string) string {
 	}
 	if kv["hold"] != "" {
 		tags = append(tags, "hold")
+	}
+	if kv["nc"] == "1" && len(tags) > 0 {
+		tags = append(tags, "nc")
 	}
 	if v := kv["cli"]; v != "" {
 		tags = append(tags, "cli:"+v)
